@@ -39,17 +39,18 @@ func checkC04(c *Ctx, r *Report) {
 // c04CfContract: the compression function is used as a black box (block, chaining value) -> chaining value. That view is
 // justified structurally: cf and its callees touch no field of the receiver other than h, and never write the block.
 func c04CfContract(r *Report, p *Prog) {
-	fn := p.MustFunc(r, "sm3.(*SM3).cf")
+	fn := sm3CompressFn(p)
 	if fn == nil {
+		r.Viol("CF-CONTRACT", "sm3 compression function", "sm3/", "no unique unexported method of *SM3 that takes one byte slice, returns nothing and touches only the chaining value h")
 		return
 	}
 	pos := p.Pos(fn.Pos())
 	e := NewEffects(p, map[string]map[int]bool{})
 	e.Run()
 	if sum := e.sum[fn]; sum != nil && len(fn.Params) == 2 {
-		r.Check(!sum.writesParam[1], "CF-CONTRACT", "sm3.(*SM3).cf does not write its block", pos, "the block parameter is never in a may-write position (effect analysis over cf and its callees)")
+		r.Check(!sum.writesParam[1], "CF-CONTRACT", "the compression function does not write its block", pos, "the block parameter is never in a may-write position (effect analysis over cf and its callees)")
 	} else {
-		r.Viol("CF-CONTRACT", "sm3.(*SM3).cf does not write its block", pos, "no effect summary for cf")
+		r.Viol("CF-CONTRACT", "the compression function does not write its block", pos, "no effect summary for cf")
 	}
 	var bad []string
 	fields := map[string]bool{}
@@ -105,6 +106,6 @@ func c04CfContract(r *Report, p *Prog) {
 		walk(fn, map[ssa.Value]bool{fn.Params[0]: true})
 	}
 	sort.Strings(bad)
-	r.Check(len(bad) == 0 && fields["h"], "CF-CONTRACT", "sm3.(*SM3).cf depends on the chaining value only", pos, fmt.Sprintf("cf and its callees (%d functions) access no field of the hash state other than h", len(seen))+ifs(len(bad) > 0, ": "+strings.Join(firstN(bad, 3), "; ")))
+	r.Check(len(bad) == 0 && fields["h"], "CF-CONTRACT", "the compression function depends on the chaining value only", pos, fmt.Sprintf("cf and its callees (%d functions) access no field of the hash state other than h", len(seen))+ifs(len(bad) > 0, ": "+strings.Join(firstN(bad, 3), "; ")))
 }
 
